@@ -39,7 +39,7 @@ Record obs := Obs {
   o_opened_rec : list str;               (* files opened for reading while recording, in order *)
   o_opened_play : list str;              (* ... while replaying *)
   o_play_ret : res str;                  (* what the replayed input call returned *)
-  o_written : list (str * list N);       (* files the replayed input wrote: (path, content) *)
+  o_written : list (str * list N);       (* the input files (recorded path, replayed path) that exist after the replay, with content *)
   o_holder_rec : res (list N * str);     (* holder restored from the recorded output: content, output_file_path *)
   o_holder_play : res (list N * str)     (* holder restored from the output captured during replay *)
 }.
@@ -64,6 +64,8 @@ Record trip_case := Trip {
   t_out_static : bool;
   t_fs_rec : fs_table;                   (* files present while recording *)
   t_fs_play : fs_table;                  (* files present when the replayed output is captured *)
+  t_pre_play : fstate;                   (* input files already present when the replay starts *)
+  t_unwritable : bool;                   (* the replayed input path cannot be opened for writing (no such directory) *)
   t_in_rec : list arg * list (str * arg);    (* full positional arguments (self included) and keywords *)
   t_in_play : list arg * list (str * arg);
   t_out_rec : list arg * list (str * arg);
@@ -109,12 +111,17 @@ Definition model_trip (t : trip_case) : obs :=
               match cassette_trip qp_id qp_id v_in, cassette_trip qp_id qp_id v_out with
               | Some v_in', Some v_out' =>
                   let '(ret, written) :=
-                    restore_input h_in (fun _ => true) v_in'
-                                  (handler_args_input (fst (t_in_play t))) (snd (t_in_play t)) in
+                    restore_input h_in (fun _ => negb (t_unwritable t)) v_in'
+                                  (handler_args_input (fst (t_in_play t))) (snd (t_in_play t)) (t_pre_play t) in
+                  (* a failing restore ends the replayed operation: its output call is never reached *)
                   let '(v_play, op3) :=
-                    prepare_output h_out (fs_size (t_fs_play t)) (fs_read (t_fs_play t))
-                                   (handler_args_output (t_out_static t) (fst (t_out_play t)))
-                                   (snd (t_out_play t)) in
+                    match ret with
+                    | Raises _ => (Raises KeyError, [])
+                    | Ans _ =>
+                        prepare_output h_out (fs_size (t_fs_play t)) (fs_read (t_fs_play t))
+                                       (handler_args_output (t_out_static t) (fst (t_out_play t)))
+                                       (snd (t_out_play t))
+                    end in
                   Obs 0 (fst (recorded_fields v_in')) (snd (recorded_fields v_in'))
                       (fst (recorded_fields v_out')) (snd (recorded_fields v_out'))
                       (op1 ++ op2) op3 ret written
@@ -127,13 +134,52 @@ Definition model_trip (t : trip_case) : obs :=
   | _, _ => discarded []
   end.
 
+(** several recordings (one input file each), replayed one after another with the same call, hence into
+    the same path; observed: the content of the replayed path after every replay *)
+Record seq_case := Seq {
+  s_explicit : option Q;
+  s_env : envvar;
+  s_name : str;
+  s_index : Z;
+  s_files : list (Z * list N);           (* size and content of the input file of each recording *)
+  s_rec : list arg * list (str * arg);   (* the recorded call (path RI) *)
+  s_play : list arg * list (str * arg);  (* the replayed call (path PI) *)
+  s_pre : fstate;                        (* state before the first replay *)
+  s_order : list nat;                    (* which recording is replayed at each step *)
+  s_impl : list (option (list N))        (* content of PI after each step *)
+}.
+
+Definition model_seq (c : seq_case) : list (option (list N)) :=
+  match mk_handler (s_index c) (s_name c) (s_explicit c) (s_env c) with
+  | Raises _ => []
+  | Ans h =>
+      let stored := map (fun f : Z * list N =>
+                           let t := [(U"RI", f)] in
+                           match fst (prepare_input h (fs_size t) (fs_read t) (fst (s_rec c)) (snd (s_rec c))) with
+                           | Ans v => cassette_trip qp_id qp_id v
+                           | Raises _ => None
+                           end) (s_files c) in
+      (fix go (order : list nat) (fs : fstate) : list (option (list N)) :=
+         match order with
+         | [] => []
+         | i :: rest =>
+             match nth_error stored i with
+             | Some (Some v) =>
+                 let fs' := snd (restore_input h (fun _ => true) v (fst (s_play c)) (snd (s_play c)) fs) in
+                 fs_get (U"PI") fs' :: go rest fs'
+             | _ => [None]        (* not a stored recording: the case is malformed *)
+             end
+         end) (s_order c) (s_pre c)
+  end.
+
 Inductive case :=
 | CB64 (content impl_enc : list N) (impl_dec : res (list N))
     (* _serialize_file(content)['file_content'] and _deserialize_file of it *)
 | CAbove (explicit : option Q) (env : envvar) (size : Z) (impl_limit : res Q) (impl : res bool)
     (* the constructed handler's limit and _is_file_above_size_limit on a file of that size *)
 | CPath (index : Z) (name : str) (args : list arg) (kwargs : list (str * arg)) (impl : res arg)
-| CTrip (t : trip_case).
+| CTrip (t : trip_case)
+| CSeq (c : seq_case).
 
 Definition model_b64 (content : list N) : list N * res (list N) :=
   (b64enc content,
@@ -159,6 +205,7 @@ Definition check_case (c : case) : bool :=
   | CPath index name args kwargs impl =>
       res_eqb arg_eqb (get_path (Handler index name None) args kwargs) impl
   | CTrip t => obs_eqb (model_trip t) (t_impl t)
+  | CSeq c => list_eqb (option_eqb bytes_eqb) (model_seq c) (s_impl c)
   end.
 
 (** for diagnostics in replay files *)
@@ -166,11 +213,13 @@ Inductive shown :=
 | ShB64 (enc : list N) (dec : res (list N))
 | ShAbove (l : res Q) (a : res bool)
 | ShPath (p : res arg)
-| ShTrip (o : obs).
+| ShTrip (o : obs)
+| ShSeq (l : list (option (list N))).
 Definition model_obs (c : case) : shown :=
   match c with
   | CB64 content _ _ => let '(e, d) := model_b64 content in ShB64 e d
   | CAbove explicit env size _ _ => let '(l, a) := model_above explicit env size in ShAbove l a
   | CPath index name args kwargs _ => ShPath (get_path (Handler index name None) args kwargs)
   | CTrip t => ShTrip (model_trip t)
+  | CSeq c => ShSeq (model_seq c)
   end.
